@@ -21,6 +21,7 @@ inductive Err where
   | value      -- ValueError
   | key        -- KeyError
   | assertion  -- AssertionError
+  | index      -- IndexError
 deriving DecidableEq, Repr
 
 /-- The mixed-dimensional grid as seen by the equation system. -/
@@ -340,6 +341,28 @@ def getValsIds (s : State) (sel : List Nat) (slot : Except Err (Bool × Nat)) :
     Except Err (List Rat) :=
   getLoop s.vars s.store sel slot s.numbers
 
+/-! ### neighbouring entry points: `update_variable_num_dofs`, `md_variable` -/
+
+/-- `update_variable_num_dofs`: for every registered variable (creation order) the entry
+    `_variable_num_dofs[_variable_numbers[id]]` is overwritten with the count on the CURRENT grid -/
+def updateLoop (e : Env) (numbers : List (Nat × Nat)) : List Nat → List Var → List Nat
+  | sizes, [] => sizes
+  | sizes, v :: r => updateLoop e numbers (sizes.set ((numberOf numbers v.id).getD 0) (varSize e v)) r
+
+def updateNumDofs (e : Env) (s : State) : State :=
+  { s with sizes := updateLoop e s.numbers s.sizes s.vars }
+
+/-- `md_variable(name, domains)`: the atomic variables wrapped by the returned md-variable.
+    `domains = None`: all variables of that name; IndexError if there is none (`variables[0]`),
+    ValueError if the name lives on subdomains and on interfaces. -/
+def mdVariable (s : State) (name : Nat) (domains : Option (List Nat)) : Except Err (List Nat) :=
+  match domains with
+  | some ds => .ok ((s.vars.filter (fun v => v.name == name && ds.contains v.grid)).map (·.id))
+  | none =>
+    match s.vars.filter (fun v => v.name == name) with
+    | [] => .error .index
+    | v :: r => if r.any (fun w => w.sub != v.sub) then .error .value else .ok ((v :: r).map (·.id))
+
 /-! ### programs -/
 
 inductive Op where
@@ -351,6 +374,8 @@ inductive Op where
   | identify (dof : Int)
   | projection (refs : Option (List Ref))
   | numDofs
+  | updateNumDofs
+  | mdVariable (name : Nat) (domains : Option (List Nat))
 
 inductive Out where
   | unit
@@ -375,6 +400,8 @@ def step (e : Env) (s : State) : Op → State × Except Err Out
   | .identify dof => (s, (identify s dof).map Out.num)
   | .projection refs => (s, (projection s refs).map (fun r => Out.proj r.1 r.2.1 r.2.2))
   | .numDofs => (s, .ok (Out.num (numDofs s)))
+  | .updateNumDofs => (updateNumDofs e s, .ok Out.unit)
+  | .mdVariable name domains => (s, (mdVariable s name domains).map Out.ids)
 
 /-- the state after a history of calls -/
 def run (e : Env) : State → List Op → State
